@@ -3,6 +3,7 @@ package main
 // C02 — conditions branch on the value of the written boolean expression.
 
 import (
+	"os"
 	"regexp"
 	"fmt"
 	"sort"
@@ -305,6 +306,15 @@ func (c *Ctx) opExprStores(fn *ssa.Function) []opStore {
 	return out
 }
 
+var c02dErrNil = regexp.MustCompile(`^\+\(\(\*parser\.Parser\)\.\w+@\d+(#\d+)? == nil\)$`)
+
+// c02dAlso: literals that stand beside a row's own conditions in the reviewed code (row|literal).
+var c02dAlso = map[string]bool{
+	`leaf/not-flag/defeated:value=FALSE|-(mu(new<ast.OperatorExpression>.Type) == "VAR")`: true,
+	`var-operator/value():strict|-($0.peekToken.Type == ")")`:                                   true,
+	`flag-operator/explicit:value|-($0.peekToken.Type == ")")`:                                  true,
+}
+
 func c02d(c *Ctx) {
 	leaf := c.Fn("parser.Parser.parseLeafBooleanExpression")
 	pv := c.Fn("parser.Parser.parseConditionVarOperator")
@@ -369,6 +379,36 @@ func c02d(c *Ctx) {
 					found = true
 					used[s.st] = true
 					c.OK(name+"/"+r.label, c.W.Pos(s.st.Pos()), r.field+" = "+r.value+" under "+strings.Join(r.lits, " "))
+					// ... and under nothing more: besides the row's own conditions the store stands
+					// only under tests of token kinds, of the operator kind and of errors (a further
+					// conjunct — "unless it is an AutoVar command", "unless the value starts with a
+					// parenthesis" — leaves the field unset in cases the row is meant for)
+					var extra []string
+					for _, l := range must {
+						l2 := verRe.ReplaceAllString(l, "")
+						isRow := false
+						for _, rl := range r.lits {
+							if strings.Contains(l, rl) {
+								isRow = true
+							}
+						}
+						l2 = regexpMust(`mu\([bL]\d+,`).ReplaceAllString(l2, "mu(")
+						l2 = regexpMust(`new#\d+<`).ReplaceAllString(l2, "new<")
+						if isRow || c02dAlso[name+"/"+r.label+"|"+l2] || c02dErrNil.MatchString(l2) {
+							continue
+						}
+						// the comparison operators that the bare form excludes, whichever are listed
+						if strings.HasPrefix(name+"/"+r.label, "var-operator/bare") || strings.HasPrefix(name+"/"+r.label, "flag-operator/bare") {
+							if regexpMust(`^-\(\$0\.curToken\.Type == "(==|!=|<|<=|>|>=)"\)$`).MatchString(l2) {
+								continue
+							}
+						}
+						extra = append(extra, l)
+					}
+					if os.Getenv("PSLINT_C02D_DUMP") != "" {
+						fmt.Fprintf(os.Stderr, "C02D\t%s/%s\t%v\n", name, r.label, must)
+					}
+					c.Check(len(extra) == 0, name+"/"+r.label+"/no-further-condition", c.W.Pos(s.st.Pos()), "no condition beyond the row's", fmt.Sprintf("%s = %s is stored only under the further condition(s) %v", r.field, r.value, prettyAll(extra)))
 					break
 				}
 			}
@@ -807,6 +847,29 @@ func unwrapIface(v ssa.Value) ssa.Value {
 }
 
 func c02h(c *Ctx) {
+	// a condition starts un-negated and with the whole expression ahead: whoever calls the
+	// expression parser from outside the expression parsers passes (single = false, negated = false)
+	if be := c.Fn("parser.Parser.parseBooleanExpression"); be != nil {
+		inside := map[string]bool{"parseBooleanExpression": true, "parseRightSideExpression": true}
+		n := 0
+		for _, ci := range c.W.callsTo(be) {
+			caller := ci.Parent()
+			if isTestFunc(c.W, caller) || inside[caller.Name()] {
+				continue
+			}
+			n++
+			a := ci.Common().Args
+			okArgs := true
+			for _, idx := range []int{1, 2} {
+				k, isC := a[idx].(*ssa.Const)
+				if !isC || k.Value == nil || k.Value.String() != "false" {
+					okArgs = false
+				}
+			}
+			c.Check(okArgs, fmt.Sprintf("condition-starts-plain/%s@%d", caller.Name(), c.T(caller).callOrd[ci]), c.W.Pos(ci.Pos()), "a condition is parsed from (single = false, negated = false)", caller.Name()+" starts parsing a condition with (single, negated) = ("+pretty(c.term(caller, a[1]))+", "+pretty(c.term(caller, a[2]))+"): negation is decided by the '!' the expression parser itself reads, and distributed by it (a caller that swallows a '!' and passes negated = true negates the operators but not the grouping)")
+		}
+		c.Check(n >= 2, "condition-starts-plain/sites", c.W.FuncPos(be), fmt.Sprintf("%d outside callers of the expression parser", n), fmt.Sprintf("only %d outside callers of the expression parser found", n))
+	}
 	rs := c.Fn("parser.Parser.parseRightSideExpression")
 	be := c.Fn("parser.Parser.parseBooleanExpression")
 	if rs == nil || be == nil {
@@ -847,8 +910,11 @@ func c02h(c *Ctx) {
 						c.OK(key, pos, "negated flag passed on unchanged")
 						continue
 					}
-					if root != be {
-						c.Bad(key, pos, "recursive call passes negated="+c.term(f, neg)+", expected the caller's flag")
+					if root != be || g != be {
+						// (only the parenthesised sub-expression — the expression parser calling itself —
+						// may be given another flag than the caller's; the continuation behind a group
+						// goes on with the caller's own)
+						c.Bad(key, pos, "the call passes negated="+pretty(c.term(f, neg))+", expected the caller's flag: only a parenthesised sub-expression is parsed under a flag of its own ('(' keeps it, '!(' flips it)")
 						continue
 					}
 					// the nested call of parseBooleanExpression: negated for '(' , !negated for '!('
